@@ -95,10 +95,12 @@ type faultSink struct {
 	Once   bool
 	Fired  int
 	Writes int
+	Sizes  []int // size of every Write call, in order
 }
 
 func (f *faultSink) Write(p []byte) (int, error) {
 	f.Writes++
+	f.Sizes = append(f.Sizes, len(p))
 	if f.At < 0 || (f.Once && f.Fired > 0) || f.Buf.Len()+len(p) <= f.At {
 		f.Buf.Write(p)
 		return len(p), nil
